@@ -973,7 +973,9 @@ pub fn gen_volspec(rng: &mut Rng, bias: Bias, lba: u32, slot: u8) -> VolSpec {
     let fsinfo_sector: u16 = if fat32 { *rng.pick(&[1u16, 1, 1, 2, 7]) } else { 0 };
     let backup_boot: u16 = if fat32 { if fsinfo_sector == 7 { 6 } else { *rng.pick(&[6u16, 6, 0, 8]) } } else { 0 };
     let backup_boot = if backup_boot == fsinfo_sector { 0 } else { backup_boot };
-    let num_fats = if rng.chance(3, 4) { 2 } else { 1 };
+    // three and four FAT copies are legal ("any value >= 1"); only the mount engine (read-only) uses them, the
+    // histories stay with 1 and 2 as the write-side properties are stated for those
+    let num_fats = if bias == Bias::Geometry && rng.chance(1, 8) { *rng.pick(&[3u8, 4]) } else if rng.chance(3, 4) { 2 } else { 1 };
     let root_entries: u16 = if fat32 { 0 } else { *rng.pick(&[512u16, 512, 16, 32, 64, 128, 240, 256, 40, 100, 500, 511]) };
     let free = match bias {
         Bias::Space => Some(match rng.below(8) {
